@@ -71,7 +71,7 @@ def check(tier, seed):
         for s in strings:
             r = dichotomy(res, s, 'item')
             kinds[r] = kinds.get(r, 0) + 1
-            cases.append(Case('cfg-unpack', f'cunpack {sk} {C.hexs(s)}', C.guarded(K.impl_unpack, s), {'bytes': C.hexs(s)}, kind='unpack/' + r))
+            cases.append(Case('cfg-unpack', f'cunpack {sk} {C.hexs(s)}', C.guarded(K.impl_unpack, s, len(cases) % 2 == 0), {'bytes': C.hexs(s)}, kind='unpack/' + r))
         res.notes['dichotomy_outcomes'] = kinds
         # constructor arguments out of range
         for g, i, bits, signed, v in [(-1, 0, 8, False, 0), (256, 0, 8, False, 0), (0, -1, 8, False, 0), (0, 4096, 8, False, 0), (0, 0, 0, False, 0),
@@ -112,7 +112,7 @@ def check(tier, seed):
             elif mode == 'hdronly':
                 body = b''
             data = hdr + body
-            impl = C.guarded(K.impl_valget, data)
+            impl = C.guarded(K.impl_valget, data, len(cases) % 2 == 0)
             if impl.startswith('!') and impl != '!ValueError':
                 res.violation(f'VALGET response decoding raised {impl[1:]} instead of ValueError',
                               {'property': 'C14', 'input': {'payload_hex': C.hexs(data), 'mode': mode}}, 'c14-valget-exn|' + C.hexs(data)[:60])
